@@ -345,7 +345,15 @@ func (g *gen) advanceCases(ids []s2.CellID) {
 		l := a.Level()
 		per := int64(6) << uint(2*l) // cells at this level (fits: l <= 30 gives 6*2^60)
 		var st int64
-		switch g.rng.Intn(8) {
+		switch g.rng.Intn(10) {
+		case 8: // whole laps plus exactly the distance to the last/first cell of the level
+			if k := int64(1 + g.rng.Intn(3)); l <= 29 {
+				st = k*per + per - s2.VerifC01DistanceFromBegin(a) + int64(g.rng.Intn(5)) - 3
+			}
+		case 9:
+			if k := int64(1 + g.rng.Intn(3)); l <= 29 {
+				st = -k*per - s2.VerifC01DistanceFromBegin(a) + int64(g.rng.Intn(5)) - 2
+			}
 		case 0:
 			st = []int64{0, 1, -1, 2, -2}[g.rng.Intn(5)]
 		case 1:
